@@ -121,6 +121,8 @@ def gen_static(repo, out):
 
 
 ALL = {"Slice": gen_slice, "SqlRange": gen_sqlrange, "Names": gen_names, "Static": gen_static}
+# units that have a committed reference translation and a direct correspondence with the code
+FALLBACK = {"Slice", "SqlRange", "Names"}
 
 
 def generate(repo, out, only=None):
@@ -133,6 +135,16 @@ def generate(repo, out, only=None):
         try:
             res[name] = fn(repo, out)
         except Refuse as r:
+            ref = os.path.join(os.path.dirname(os.path.abspath(out)), "Ref", name + ".v")
+            if name in FALLBACK and os.path.exists(ref):
+                # The source text is outside the translator's subset (a rewrite, harmless or not).  Fall back to the
+                # committed reference translation; the caller must then tie it to the code by the unit's direct
+                # correspondence (vlib/kernels.py for Slice, the check's own correspondence for SqlRange and Names).
+                with open(ref) as fh, open(os.path.join(out, name + ".v"), "w") as oh:
+                    oh.write(f"(* translator refused the current source ({r}); this is the reference translation coq/Ref/{name}.v *)\n")
+                    oh.write(fh.read())
+                res[name] = f"FALLBACK: {r}"
+                continue
             res[name] = f"REFUSED: {r}"
             # make the generated file uncompilable so that dependents fail closed
             for fname in {"Static": ["Dataclasses", "WriteSites"]}.get(name, [name]):
